@@ -1,7 +1,9 @@
 package c02
 
 import (
+	"fmt"
 	"math"
+	"strings"
 
 	"github.com/robertkrimen/otto"
 )
@@ -225,8 +227,85 @@ func buildKinds() []kind {
 			g, n = g+1, 0
 		}
 	}
+	ks = append(ks, conversionKinds()...)
+	g, n = g+1, 0
+	for i := range ks {
+		if ks[i].Group != -1 {
+			continue
+		}
+		ks[i].Group = g
+		if n++; n == 16 {
+			g, n = g+1, 0
+		}
+	}
 	markPrimitives(ks)
 	return ks
+}
+
+// conversionExprs: an EXISTING data property turned into an accessor (and accessor redefinitions) with each of
+// get / set explicitly undefined, absent, or a function — on a plain object, through defineProperties, on an
+// array index, a function, an arguments object. Returns name → expression of the object.
+func conversionExprs() (names, exprs []string) {
+	half := map[string][2]string{
+		"undef":  {`get:undefined`, `set:undefined`},
+		"absent": {``, ``},
+		"fn":     {`get:function(){return 1}`, `set:function(v){}`},
+	}
+	order := []string{"undef", "absent", "fn"}
+	hosts := []struct{ name, pre, def string }{
+		{"object", `var o={x:1,y:2};`, `Object.defineProperty(o,"x",{%D});`},
+		{"defineProperties", `var o={x:1,y:2};`, `Object.defineProperties(o,{x:{%D}});`},
+		{"array-index", `var o=[1,2];`, `Object.defineProperty(o,"0",{%D});`},
+		{"function-prop", `var o=function(){};o.x=1;`, `Object.defineProperty(o,"x",{%D});`},
+		{"from-accessor", `var o={get x(){return 1},set x(v){}};`, `Object.defineProperty(o,"x",{%D});`},
+		{"data-accessor-data-accessor", `var o={x:1};Object.defineProperty(o,"x",{get:function(){return 2},configurable:true});Object.defineProperty(o,"x",{value:3,configurable:true});`, `Object.defineProperty(o,"x",{%D});`},
+	}
+	for _, h := range hosts {
+		for _, gk := range order {
+			for _, sk := range order {
+				if gk == "absent" && sk == "absent" {
+					continue
+				}
+				if h.name != "object" && gk != "undef" && sk != "undef" {
+					continue // the other hosts: only the combinations with an explicit undefined
+				}
+				var parts []string
+				if half[gk][0] != "" {
+					parts = append(parts, half[gk][0])
+				}
+				if half[sk][1] != "" {
+					parts = append(parts, half[sk][1])
+				}
+				parts = append(parts, "configurable:true", "enumerable:true")
+				names = append(names, fmt.Sprintf("d2a-%s-get-%s-set-%s", h.name, gk, sk))
+				exprs = append(exprs, `(function(){`+h.pre+strings.ReplaceAll(h.def, "%D", strings.Join(parts, ","))+`return o})()`)
+			}
+		}
+	}
+	return names, exprs
+}
+
+func conversionKinds() []kind {
+	var out []kind
+	names, exprs := conversionExprs()
+	for i, name := range names {
+		key := `"x"`
+		if strings.Contains(name, "array-index") {
+			key = `"0"`
+		}
+		desc := `Object.getOwnPropertyDescriptor(` + exprs[i] + `,` + key + `)`
+		out = append(out, kind{Name: name, Expr: exprs[i], Hostile: true, Group: -1})
+		if strings.HasPrefix(name, "d2a-object-") {
+			out = append(out, kind{Name: name + "-descriptor", Expr: desc, Hostile: true, Group: -1})
+		}
+		if strings.Contains(name, "get-undef") {
+			out = append(out, kind{Name: name + "-getter-value", Expr: desc + `.get`, Hostile: true, Group: -1})
+		}
+		if strings.Contains(name, "set-undef") {
+			out = append(out, kind{Name: name + "-setter-value", Expr: desc + `.set`, Hostile: true, Group: -1})
+		}
+	}
+	return out
 }
 
 // markPrimitives sets Prim from `typeof` on a scratch runtime.
